@@ -39,17 +39,17 @@ Print Assumptions C20_bundled_symmetric.
 
 (* any upper/lower-case spelling s of a bundled name nm resolves to nm's file *)
 Theorem C20_name_any_spelling : forall nm raw s, In (nm, raw) submat_files -> upper s = upper nm ->
-  resolve s = RFile raw.
+  resolve false s = RFile raw.
 Proof. exact resolve_spelling. Qed.
 Print Assumptions C20_name_any_spelling.
 
-Theorem C20_name_case_insensitive : forall s1 s2, upper s1 = upper s2 -> resolve s1 = resolve s2.
+Theorem C20_name_case_insensitive : forall b s1 s2, upper s1 = upper s2 -> resolve b s1 = resolve b s2.
 Proof. exact resolve_case_insensitive. Qed.
 Print Assumptions C20_name_case_insensitive.
 
 (* a name is reported missing exactly when its upper-case form is not the name of a bundled matrix
    (README entries of the directory, '', '.', paths are missing names too) *)
-Theorem C20_name_missing : forall name, resolve name = RMissing <-> ~ In (upper name) submat_names.
+Theorem C20_name_missing : forall name, resolve false name = RMissing <-> ~ In (upper name) submat_names.
 Proof. exact resolve_missing. Qed.
 Print Assumptions C20_name_missing.
 
@@ -143,6 +143,17 @@ Proof.
 Qed.
 Print Assumptions C20_submat_name_spec.
 
+(* lookup order: an existing regular file wins over a bundled name - submat('nuc') with a file ./nuc in the working
+   directory returns the cells of THAT file; the bundled names only decide when there is no such file *)
+Theorem C20_file_wins : forall name content,
+  resolve true name = RPath /\ submat_call name (Some content) = submat_file content /\
+  submat_call name None = submat_name name /\ resolve false name <> RPath.
+Proof.
+  exact (fun name content => conj (proj1 (file_wins name content)) (conj (proj2 (file_wins name content))
+                                  (no_file_lookup name))).
+Qed.
+Print Assumptions C20_file_wins.
+
 (* non-vacuity: a user file with a comment, a blank line, CRLF line ends, an integer row and a decimal row *)
 Example C20_witness :
   wf_content (unhex (bs "2320630d0a0d0a2020412020420d0a412020312020322e350d0a42092d3209370d0a"%bs)) = true /\
@@ -171,3 +182,9 @@ Example C20_witness_numbers :
      [AWords [] (bs "A"%bs) [(bs " "%bs, bs "B"%bs)] [];
       AWords [] (bs "A"%bs) [(bs " "%bs, render_num (NDec (-5) 2)); ([x09], render_num (NDec 3 0))] []]) = true.
 Proof. exact (conj eq_refl (conj eq_refl (conj eq_refl (conj eq_refl (conj eq_refl eq_refl))))). Qed.
+Example C20_witness_file_wins : exists (name raw : str),
+  In (name, raw) submat_files /\
+  submat_call name (Some (bs "X
+X 42"%bs)) = OMatrix [(bs "X"%bs, [(bs "X"%bs, NInt 42)])] /\
+  submat_call name None = parsed raw.
+Proof. exact witness_file_wins. Qed.
